@@ -9,8 +9,9 @@ namespace ratio
     template <typename T>
     std::vector<std::vector<T>> combinations(const std::vector<T> &v, const size_t &n) noexcept
     {
-        assert(v.size() >= n);
         std::vector<std::vector<T>> combs;
+        if (v.size() < n) // there are no combinations of 'n' elements..
+            return combs;
         std::string bitmask(n, 1);   // K leading 1's
         bitmask.resize(v.size(), 0); // N-K trailing 0's
 
